@@ -926,6 +926,15 @@ func (fr *Frame) store(st *State, a Addr, v Val, pos token.Pos) {
 		old := fmt.Sprintf("(select %s %s)", inner, a.Idx)
 		nv := c.pathSet(old, a.Root, a.Path, v.T)
 		fr.setElemHeap(st, key, a.Root, arr, fmt.Sprintf("(store %s %s (store %s %s %s))", arr, a.Ref, inner, a.Idx, nv), a.Ref)
+		{
+			// same array, other index: unchanged (accessor form)
+			name := st.heap[key]
+			ef := c.eltFn(a.Root)
+			c.n++
+			sq, kq := fmt.Sprintf("s_q%d", c.n), fmt.Sprintf("k_q%d", c.n)
+			fr.assume(st, fmt.Sprintf("(forall ((%s Slice) (%s Int)) (! (=> (and (= (sl.arr %s) %s) (not (= (+ (sl.off %s) %s) %s))) (= (%s %s %s %s) (%s %s %s %s))) :pattern ((%s %s %s %s))))",
+				sq, kq, sq, a.Ref, sq, kq, a.Idx, ef, name, sq, kq, ef, arr, sq, kq, ef, name, sq, kq))
+		}
 		return
 	}
 	if a.Local != nil {
@@ -1313,6 +1322,10 @@ func (fr *Frame) run(st0 *State) {
 					c.defs = append(c.defs, fmt.Sprintf("(assert (=> %s (= %s %s)))", st.pc, n, v.T))
 					li.variant0 = n
 				}
+			}
+			if fr.fc != nil && len(fr.fc.LoopInv[ord]) > 0 && fr.top {
+				// vacuity canary: the assumed invariants must be satisfiable at the loop head
+				fr.oblige(st, fmt.Sprintf("canary.loop%d_false(MUST-FAIL)", ord), "false", posOf(b))
 			}
 			fr.namePC(st, fmt.Sprintf("loop%d", ord))
 			fr.loopHead[ord] = st.clone()
@@ -2110,6 +2123,24 @@ func (fr *Frame) step(st *State, in ssa.Instruction) bool {
 				fr.obligeAt(st, "safety.conversion", "call", inv[0], x.Pos())
 			}
 			fr.vals[x] = Val{wrapUnsigned(x.Type(), v.T), x.Type()}
+		case from == "Str" && to == "Slice":
+			// []rune(s) / []byte(s): a fresh array holding the runes (bytes) of s; as a sequence it is runesof(s) / the bytes
+			sl := x.Type().Underlying().(*types.Slice)
+			eb, _ := sl.Elem().Underlying().(*types.Basic)
+			r := fr.newRef(st, "convarr")
+			key, arr := c.elemHeap(st, sl.Elem())
+			inner := c.fresh("convinner", "(Array Int Int)")
+			c.n++
+			q := fmt.Sprintf("i_q%d", c.n)
+			if eb != nil && eb.Kind() == types.Uint8 {
+				fr.assume(st, fmt.Sprintf("(forall ((%s Int)) (! (=> (and (<= 0 %s) (< %s (slen %s))) (= (select %s %s) (sat %s %s))) :pattern ((select %s %s))))", q, q, q, v.T, inner, q, v.T, q, inner, q))
+				fr.setElemHeap(st, key, sl.Elem(), arr, fmt.Sprintf("(store %s %s %s)", arr, r, inner), r)
+				fr.vals[x] = Val{fmt.Sprintf("(mk-slice %s 0 (slen %s))", r, v.T), x.Type()}
+			} else {
+				fr.assume(st, fmt.Sprintf("(forall ((%s Int)) (! (=> (and (<= 0 %s) (< %s (rcount %s))) (= (select %s %s) (runeat %s %s))) :pattern ((select %s %s))))", q, q, q, v.T, inner, q, v.T, q, inner, q))
+				fr.setElemHeap(st, key, sl.Elem(), arr, fmt.Sprintf("(store %s %s %s)", arr, r, inner), r)
+				fr.vals[x] = Val{fmt.Sprintf("(mk-slice %s 0 (rcount %s))", r, v.T), x.Type()}
+			}
 		case from == "Int" && to == "Str":
 			// string(r): the UTF-8 encoding of the code point (1..4 bytes; U+FFFD, 3 bytes, for an invalid one)
 			fr.vals[x] = Val{fmt.Sprintf("(strofrune %s)", v.T), x.Type()}
@@ -2501,6 +2532,15 @@ func (fr *Frame) call(st *State, x *ssa.Call) bool {
 		c.sortOf(x.Type())
 		r := c.fresh("split", "Slice")
 		fr.assume(st, fmt.Sprintf("(and (>= (sl.len %s) 1) (>= (sl.off %s) 0) (<= (sl.arr %s) %s))", r, r, r, fr.allocTerm(st)))
+		{
+			// every piece is a substring of the argument: no longer than it
+			sl := x.Type().Underlying().(*types.Slice)
+			_, arr := c.elemHeap(st, sl.Elem())
+			ef := c.eltFn(sl.Elem())
+			c.n++
+			q := fmt.Sprintf("k_q%d", c.n)
+			fr.assume(st, fmt.Sprintf("(forall ((%s Int)) (! (=> (and (<= 0 %s) (< %s (sl.len %s))) (<= (slen (%s %s %s %s)) (slen %s))) :pattern ((%s %s %s %s))))", q, q, q, r, ef, arr, r, q, sv.T, ef, arr, r, q))
+		}
 		setRes(Val{r, x.Type()})
 		return true
 	case "strings.Index":
@@ -2559,6 +2599,17 @@ func (fr *Frame) call(st *State, x *ssa.Call) bool {
 			setRes(Val{r, x.Type()})
 			return true
 		}
+	case "strings.TrimLeft", "strings.TrimRight", "strings.TrimPrefix0":
+		// the result is a suffix (TrimLeft) / prefix (TrimRight) of the argument
+		sv := fr.val(x.Call.Args[0]).T
+		r := c.fresh("trimmed", "Str")
+		if full == "strings.TrimLeft" {
+			fr.assume(st, fmt.Sprintf("(and (<= (slen %s) (slen %s)) (= %s (substr %s (- (slen %s) (slen %s)) (slen %s))))", r, sv, r, sv, sv, r, sv))
+		} else {
+			fr.assume(st, fmt.Sprintf("(and (<= (slen %s) (slen %s)) (= %s (substr %s 0 (slen %s))))", r, sv, r, sv, r))
+		}
+		setRes(Val{r, x.Type()})
+		return true
 	case "strings.TrimSpace":
 		setRes(Val{fmt.Sprintf("(trimspace %s)", fr.val(x.Call.Args[0]).T), x.Type()})
 		return true
@@ -2650,7 +2701,19 @@ func (fr *Frame) applyContract(st *State, x *ssa.Call, callee *ssa.Function, fc 
 				c.note("%s: clause %s#ensures.%s is a known finding (refuted on the real code) and is not assumed at this call", fr.fname, key, en.Label)
 				continue
 			}
-			fr.assume(st, fr.evalClause(en.Src, &Env{fr: fr, st: st, old: pre, binds: binds, noLocals: true}))
+			func() {
+				defer func() {
+					if r := recover(); r != nil {
+						if msg, ok := r.(string); ok && strings.Contains(msg, "unknown name") {
+							// the clause talks about locals of the callee (an internal assertion): nothing to assume at a call site
+							c.note("%s: clause %s#ensures.%s mentions callee locals and is not assumed at call sites", fr.fname, key, en.Label)
+							return
+						}
+						panic(r)
+					}
+				}()
+				fr.assume(st, fr.evalClause(en.Src, &Env{fr: fr, st: st, old: pre, binds: binds, noLocals: true}))
+			}()
 		}
 	}
 	// havoc modifies
